@@ -48,3 +48,7 @@ Proof.
   destruct node; unfold payload_of, mk_req, mk_req_data, validate_int; eval_svc;
     crunch; cbn [orb andb] in *; rewrite ?app_nil_r; cbn [app]; finish.
 Qed.
+
+(* a client owns its configuration: two clients built from one dictionary, one reconfigured, the dictionary edited afterwards *)
+Theorem tie_config_isolated v w : fn_config_isolated v w = ret [v; 2006; 1; 2013].
+Proof. reflexivity. Qed.
